@@ -218,6 +218,12 @@ def r_strwrite(F, R, cat=None):
                     tr = trees(e.ctx, src)
                     ok = tr[0] == "call" and tr[1] in (("str", "as_bytes"), ("String", "as_bytes")) \
                         and tr[3] == ()
+                    if not ok and tr[0] == "place" and tr[1] == b.key and tr[2] == ("arg", 2) and not tr[3] and b.nargs >= 2 and \
+                            str(b.locals[2]["ty"]["s"]).replace("&", "").replace("'a ", "").replace("mut ", "").strip() in (
+                                "str", "std::string::String", "String", "alloc::string::String"):
+                        # the item itself, a str / String seen through reference-to-reference conversions
+                        # only (`AsRef<[u8]>` in a generic helper): its bytes
+                        ok = True
                     detail = "pushed bytes = " + show(tr)
                 R.check("R-STRWRITE", b.label(), ok,
                         construct="%s %s on inner" % (e.cls, e.tag[1]), where=e.where(), detail=detail)
